@@ -107,6 +107,8 @@ func rulesC03(c *Ctx) {
 	R.Rule("R8", "mint signs only behind overflow-checked OUT <= stored quote amount (at most the quoted amount)", 3)
 	R.Rule("R9", "the quote state survives storage: String() and StringToState of the mint-quote state are inverse tables (the state is persisted as text)", 1)
 	R.Rule("R10", "the PENDING marker precedes every other storage / Lightning call of the mint op", 2)
+	R.Rule("R11", "the quote-state op asks the backend whenever the stored state is UNPAID (a payment that arrived while nobody was watching is noticed at the next poll)", 1)
+	c.ruleMintPollCompleteness("R11")
 	c.ruleEnumTables("R9", "cashu/nuts/nut04")
 	c.vocabProblems("R1")
 	st := c.mintStateConsts("R1")
@@ -636,4 +638,24 @@ func (c *Ctx) ruleQuotePaidWrite(rule string) {
 		}
 	}
 
+}
+
+// ruleMintPollCompleteness (shared: C03.R11, C07.P): in the mint-quote state op every path to a success return
+// either leaves through "stored state != UNPAID" or makes the invoice look-up - no further condition (expiry,
+// age, a flag) may suppress the look-up for an UNPAID quote: the invoice subscription lives in memory only,
+// after a restart this poll is the only way a payment is noticed.
+func (c *Ctx) ruleMintPollCompleteness(rule string) {
+	st := c.mintStateConsts(rule)
+	op := c.op(rule, "/v1/mint/quote/{method}/{quote_id}")
+	if st == nil || op == nil {
+		return
+	}
+	notUnpaid := &Cond{Name: "stored state is not UNPAID", Match: func(f *Fact, _ *Origins) bool {
+		if f.Kind != "cmp" || f.Op.String() != "==" || !isField(f.A, "State") || f.B.K != "const" {
+			return false
+		}
+		return (!f.Pos && isConst(f.B, st["Unpaid"])) || (f.Pos && !isConst(f.B, st["Unpaid"]))
+	}}
+	c.ruleMustHit(rule, "UNPAID quote => invoice looked up", "a poll of an UNPAID quote always asks the Lightning backend for the invoice", op, []*Cond{notUnpaid},
+		func(d *CallDesc) bool { m, ok := c.V.IsLNCall(d); return ok && m == c.V.InvoiceStatusMeth })
 }
